@@ -10,6 +10,22 @@ import random
 from typing import Any, List, Optional, Tuple
 
 # names of different lengths, none contained in another (an expander that reorders macros by name must not matter)
+FORMAL_POOL = ["reg", "r", "x", "imm", "op", "a", "ax", "o", "e", "0", "1", "mov", "push", "reg1", "src", "dst"]
+
+
+def _all_strings(node):
+    """Every string / key / scalar occurring anywhere in a pattern tree."""
+    if isinstance(node, dict):
+        for k, v in node.items():
+            yield str(k)
+            yield from _all_strings(v)
+    elif isinstance(node, list):
+        for x in node:
+            yield from _all_strings(x)
+    elif node is not None:
+        yield str(node)
+
+
 NAME_POOL = ["@q_", "@macro_B_", "@zz_c_", "@d1_", "@long_name_E_", "@f_", "@mG_", "@a_very_long_macro_name_H_"]
 
 
@@ -150,6 +166,14 @@ class Factoring:
                 rng.shuffle(leaves)
                 chosen = leaves[: rng.randint(1, min(3, len(leaves)))]
                 formals = [f"arg-{i + 1}" for i in range(len(chosen))]
+                if rng.random() < 0.5 and not self.resub_probe:
+                    # realistic formal names that are substrings of other tokens of the body (`reg` in `&genreg-1`, `r` in `%rax`,
+                    # `x` in `xor`): only a WHOLE token equal to the formal is a parameter
+                    taken = {str(x) for x in _all_strings(val)}
+                    pool = [n for n in FORMAL_POOL if n not in taken]
+                    if len(pool) >= len(chosen):
+                        formals = rng.sample(pool, len(chosen))
+                        self.forms.append("param:formal-names-inside-other-tokens")
                 if self.resub_probe and len(chosen) >= 2 and not self.resub_used:
                     # open finding F10 probe: the first argument's value equals the second formal's name
                     body_probe = True
